@@ -10,8 +10,8 @@ Ltac f2cons := repeat (apply Forall2_cons); try apply Forall2_nil.
 Definition tref (tm td : tgt) : Prop := forall f, meets f tm = true -> Meets f td.
 Definition timp (t t' : tgt) : Prop := forall f, Meets f t -> Meets f t'.
 
-Lemma eps9_nonneg : 0 <= eps9.
-Proof. unfold eps9, Qle. simpl. lia. Qed.
+Lemma eps9_nonneg : 0 <= eps_tol.
+Proof. unfold eps_tol, Qle. simpl. lia. Qed.
 
 (* ------------------------------------------------------------------ targets *)
 Lemma timp_refl t : timp t t.
@@ -56,14 +56,14 @@ Lemma tref_exact0_sqrt V' A' : V' == 0 -> 0 <= A' -> tref (TExact 0) (TSqrt V' A
 Proof.
   intros E HA f H. apply meets_sound in H. destruct H as [Hf Hy]. split; [assumption|].
   simpl in *. unfold close_sqrt.
-  assert (T : 0 <= eps9 * (f2q f + A')).
+  assert (T : 0 <= eps_tol * (f2q f + A')).
   { apply Qmult_le_0_compat; [apply eps9_nonneg|]. rewrite Hy. rewrite Qplus_0_l. assumption. }
   repeat split.
   - rewrite Hy. apply Qle_refl.
   - assumption.
   - left. rewrite Hy at 1. assumption.
   - rewrite E.
-    assert (G : 0 <= f2q f + eps9 * (f2q f + A')).
+    assert (G : 0 <= f2q f + eps_tol * (f2q f + A')).
     { rewrite <- (Qplus_0_r 0). apply Qplus_le_compat; [rewrite Hy; apply Qle_refl | exact T]. }
     apply Qmult_le_0_compat; exact G.
 Qed.
